@@ -69,6 +69,14 @@ CLAIMED = {
             "reflexive, same-kind, cross-kind and near-miss pairs: a == b, a != b and b == a printed by the interpreter must equal VEq(a, b) and its negation",
             "pairs are bounded by the pool; transitivity follows from agreement with an equivalence on all compared pairs",
             "DESIGN.md §6 C13"),
+    "C30": (MC, "TLC model checking of Nrepl.tla (all interleavings of reader / workers / flushers / writer on 7 client scenarios, safety + liveness) and TLC trace validation (NreplTrace.tla) of traces recorded from the real server under seeded schedule perturbation",
+            "the design is checked exhaustively on bounded scenarios; every recorded send/recv log of the real server must be explained by some interleaving of the specification's silent server steps with all invariants holding; corrupted copies of accepted traces are rejected on every run",
+            "the exhaustive claim is about the model; trace validation covers the schedules produced by the kernel and hook H3; error message texts are not compared",
+            "DESIGN.md §3.5, §6 C30"),
+    "C31": (MC, "TLC: Nrepl.tla InterruptedOnlyIfAsked + InterruptStops liveness; trace validation of interrupt-heavy scenarios; timed sub-checks on the real server",
+            "interrupt / close at seeded moments (before the eval, while queued, during, after, twice) are recorded and validated against the specification; an idle interrupt must not cancel the next eval, an interrupt or close during a running loop must end it `interrupted` within 2 s",
+            "an interrupt handled before the worker has reset the flag (eval still queued / just dequeued) is, by design, wiped like an idle one: the model makes this explicit",
+            "DESIGN.md §3.5, §6 C31"),
     "C33": (MC, "TLC enumerates Syntax.tla tree families and prints seeded programs (P / S operators); the parser must rebuild the same tree",
             "every tree of ExprTrees(d) / StmtTrees(d) (d=1 quick, 2 thorough) and generated programs printed by the specification must parse without errors to exactly the printed tree; Print injective on the family",
             "the families cover the core grammar; structs/dicts/imports/tests are exercised elsewhere",
